@@ -8,6 +8,7 @@ use libmon::*;
 
 struct Stats {
    histories: u64,
+   histories_ge2: u64,
    ops: u64,
    queries: u64,
    viol: Vec<(String, String)>,
@@ -52,6 +53,9 @@ impl RefClosure {
 
 fn check_trrel_history(n: usize, hist: &[(usize, usize)], st: &mut Stats) {
    st.histories += 1;
+   if hist.len() >= 2 {
+      st.histories_ge2 += 1;
+   }
    let res = catch_unwind(AssertUnwindSafe(|| {
       let mut fails: Vec<(&'static str, String)> = vec![];
       let mut uf = TrRelUnionFind::<usize>::default();
@@ -133,6 +137,9 @@ enum UfOp {
 
 fn check_uf_history(n: usize, hist: &[UfOp], st: &mut Stats) {
    st.histories += 1;
+   if hist.len() >= 2 {
+      st.histories_ge2 += 1;
+   }
    let res = catch_unwind(AssertUnwindSafe(|| {
       let mut fails: Vec<(&'static str, String)> = vec![];
       let mut uf = UnionFind::<usize>::default();
@@ -229,7 +236,7 @@ fn main() {
    let nrandom = arg("random", 2000);
    let which = arg("which", 3); // bit 1: trrel_uf, bit 2: uf
    let mut rng = Rng::new(seed);
-   let mut st = Stats { histories: 0, ops: 0, queries: 0, viol: vec![] };
+   let mut st = Stats { histories: 0, histories_ge2: 0, ops: 0, queries: 0, viol: vec![] };
    let n = 4usize;
    let mut exhaustive = 0u64;
    if which & 1 != 0 {
@@ -302,7 +309,7 @@ fn main() {
          check_uf_history(dom, &hist, &mut st);
       }
    }
-   println!("{{\"histories\":{},\"exhaustive_histories\":{},\"operations\":{},\"queries_compared\":{},\"violations\":{}}}", st.histories, exhaustive, st.ops, st.queries, st.viol.len());
+   println!("{{\"histories\":{},\"histories_with_2_or_more_operations\":{},\"exhaustive_histories\":{},\"operations\":{},\"queries_compared\":{},\"violations\":{}}}", st.histories, st.histories_ge2, exhaustive, st.ops, st.queries, st.viol.len());
    for (l, w) in &st.viol {
       println!("{{\"violation\":true,\"what\":\"{}\",\"witness\":\"{}\"}}", l, json_escape(w));
    }
